@@ -23,7 +23,7 @@ PLAN = {
     # (b) legal by construction
     'fusion': (9, 90), 'fusion-mismatch': (9, 90), 'fusion-collapse': (5, 50),
     'fission': (9, 90), 'fission-autopromote': (5, 45), 'fission-promote': (7, 60), 'fission-promote-lb': (4, 30),
-    'interchange': (9, 90), 'interchange-project': (6, 50), 'split': (8, 80), 'block': (7, 60),
+    'interchange': (9, 90), 'interchange-project': (6, 50), 'split': (8, 80), 'split-steptrunc': (3, 20), 'block': (7, 60),
 }
 
 
